@@ -250,7 +250,7 @@ CHECKS = {
             'exhaustive enumeration of short command sequences + Hypothesis '
             'sequences, four-state reference machine as oracle, state revealed '
             'by probe commands',
-            'All sequences over a 52-instance alphabet (every built-in '
+            'All sequences over a 54-instance alphabet (every built-in '
             'command, valid/invalid arguments, existing/missing mailboxes, '
             'SELECT/EXAMINE, good/bad/cancelled LOGIN and AUTHENTICATE, '
             'STARTTLS, IDLE+DONE, UID variants) up to length 2 (quick) / 3 '
